@@ -24,7 +24,7 @@ def corpus():
 
 
 def generate(rng, tier):
-    n = 3000 if tier == "quick" else 150000
+    n = 8000 if tier == "quick" else 150000
     cases = []
     for i in range(n):
         items = sltgen.gen_script(rng)
